@@ -16,6 +16,8 @@ pub struct State {
 
 impl State {
     pub fn store_string(&mut self, value: String) -> StoreStringResult {
+        #[cfg(desert_verif)]
+        crate::verif::point("State::store_string");
         match self.ids_by_string.entry(value) {
             Entry::Occupied(entry) => StoreStringResult::StringAlreadyStored { id: *entry.get() },
             Entry::Vacant(entry) => {
@@ -33,6 +35,8 @@ impl State {
     }
 
     pub fn store_ref(&mut self, value: &impl Any) -> StoreRefResult {
+        #[cfg(desert_verif)]
+        crate::verif::point("State::store_ref");
         match self.ids_by_ref.entry(value) {
             Entry::Occupied(entry) => StoreRefResult::RefAlreadyStored { id: *entry.get() },
             Entry::Vacant(entry) => {
